@@ -105,6 +105,10 @@ def impl(case):
     if call["mode"] == "vectorize":
         st, feats = call_impl(flw.vectorize, mask=m2, extra=extra, **kw)
     elif call["mode"] == "min_sto":
+        # half of the time after an earlier vectorisation of a coarser network on the same object (round-3 seed: the
+        # earlier call truncated the memoised stream order)
+        if sum(call["flw"]) % 2:
+            call_impl(flw.streams, min_sto=3)
         st, feats = call_impl(flw.streams, min_sto=2, max_len=a[4][0], extra=extra, **kw)
     else:
         st, feats = call_impl(flw.streams, mask=m2, max_len=a[4][0], extra=extra, **kw)
